@@ -197,6 +197,14 @@ def r_plumb(ctx):
     namesake_plumbing(ctx, ctx.prog, r"^(<)?dnp3::master::", 40, "plumbing")
 
 
+def r_activity(ctx):
+    """'a keep-alive link status request is sent only after the configured silence': the silence of an association ends when a
+    fragment FROM IT arrives - link activity is credited to the address popped with the fragment, never to the destination of the
+    task that happens to be waiting (multi-drop: F16). Shared code with C15.R8 (address plumbing)."""
+    import c15
+    c15.r8(ctx)
+
+
 RULES = [
     ("C19.R1", "T2-order", "user queue before automatic work; auto, polls, link status inside an association", r1),
     ("C19.R2", "T5", "the request queue is used FIFO only", r2),
@@ -205,4 +213,5 @@ RULES = [
     ("C19.R5", "T2/T5", "keep-alive only after the deadline; re-armed on all received traffic", r5),
     ("C19.R6", "T5/T3", "single writer of requests; tasks are awaited one at a time", r6),
     ("C19.R7", "T8-namesake", "the master's scheduling configuration (keep-alive, poll periods) is plumbed field-to-namesake", r_plumb),
+    ("C19.R8", "T8", "link activity is credited to the sender of the fragment (address plumbing, shared with C15.R8)", r_activity),
 ]
